@@ -44,8 +44,8 @@ CLAIMED = {
         "for every key, keys/offsets/holes preserved by >>, shift laws for ++ and offsets; SMT-decided per path, counterexamples "
         "replayed natively. Known findings (++ index collision, sparse Bytes) are excluded by input class and still reported.",
         "sequences of length 1..3 with one possible hole, offsets in [-2,2], arguments integer/fractional/non-number; dicts and "
-        "{|@,x|} relations of 1..2 entries with duplicate keys; element transformer an uninterpreted function; safe-tail (?:) and "
-        ":> are outside the registered bound"),
+        "{|@,x|} relations of 1..2 entries with duplicate keys; element transformer an uninterpreted function; safe tails (c(k)?:f, t.n?:f, chained "
+        "and nested) through the real compiler with symbolic keys and offsets; :> and >>> are outside the registered bound"),
     "C06": (
         "Bounded symbolic execution of every Less/Equal/Kind implementation over an 18-kind value universe built through the real "
         "constructors: trichotomy on all kind pairs, transitivity on triples inside the number/tuple/sequence families, and Rank/"
